@@ -116,3 +116,9 @@ META["C17"] = dict(
           "table, and the real capacity limit); generated glyph runs drawn through both entry points and compared with the "
           "compositions the statement names."),
     note="Trusted: the model in props/glyphs.cpp; hook 3 (table size). Found and fixed: S11.")
+META["C14"] = dict(
+    technique="stateful property-based testing (rapidcheck): long-lived images under generated setter/draw histories vs. freshly built replicas of the current state",
+    design_ref="§4 C14",
+    text=("Generated histories of every image setter, pixel writes and composites; at each composite the long-lived images must "
+          "render exactly like fresh images given the same final properties and pixels."),
+    note="Trusted: the harness's model of 'current properties' (one field per setter).")
